@@ -260,11 +260,54 @@ Definition leader_complete (g : cgstate) : Prop :=
 Definition applied_within_commit (g : cgstate) : Prop :=
   forall a sa, In a (cnodes g) -> gn_run a = Up sa -> v_applied sa <= v_commit sa /\ v_commit sa <= last_index sa.
 
+(* ---------------------------------------------------------------- acknowledgements to clients *)
+(* the Apply / Barrier / no-op futures answered WITHOUT error by a step (leaderLoop, case commitCh ->
+   processLogs -> the FSM goroutine answers the future): the leader's term and the entry *)
+Definition step_acks (g : cgstate) (l : clabel) : list (N * entry) :=
+  match l with
+  | CCommit i =>
+    match find_node (g_nodes (lg_g (cg_l g))) i, find_lead (cg_lead g) i with
+    | Some n, Some ld =>
+      match gn_run n with
+      | Up s =>
+        if (v_role s =? Leader) && ld_notified ld then
+          match leader_commit (mkLS s (ld_cm ld) (ld_infl ld)) with
+          | Some (ls2, _, res) =>
+            flat_map (fun r => if fr_err r =? E_OK
+                               then match d_log (l_node ls2) !! fr_index r with Some e => [(v_term s, e)] | None => [] end
+                               else []) res
+          | None => []
+          end
+        else []
+      | Down _ => []
+      end
+    | _, _ => []
+    end
+  | _ => []
+  end.
+
+(* everything acknowledged along a run *)
+Fixpoint run_acks (snaps : bool) (cfgs : list config) (g : cgstate) (ls : list clabel) : list (N * entry) :=
+  match ls with
+  | [] => []
+  | l :: r => step_acks g l ++ match cstep snaps cfgs g l with Some g' => run_acks snaps cfgs g' r | None => [] end
+  end.
+
+(* Durable acknowledgements: an entry acknowledged by a leader of term T is held, at its index, by every
+   leader of a term >= T (in its log: no snapshots in this system), and is what every running server
+   that knows that index committed holds there *)
+Definition acks_permanent (acks : list (N * entry)) (g : cgstate) : Prop :=
+  forall T e, In (T, e) acks ->
+  (forall l sl, In l (cnodes g) -> gn_run l = Up sl -> v_role sl = Leader -> T <= v_term sl ->
+     d_log sl !! e_idx e = Some e) /\
+  (forall a sa ea, In a (cnodes g) -> gn_run a = Up sa -> e_idx e <= v_commit sa ->
+     d_log sa !! e_idx e = Some ea -> ea = e).
+
 (* ---------------------------------------------------------------- flat encoding (component 102) *)
 (* as component 101, plus:  12 n (the n-th answer returns to replicateTo) | 13 i j (the outstanding call of i to j fails)
    | 14 i (the leader loop consumes commitCh) | 99 <label> (no state dump)
    output per label: 0 | 1, per node: role term vterm vcand+1 lastIndex commit applied nfsm fsm* nlog (idx term ty data)* npeers nextIndex*,
-   leaders, requests, answers, newest request as in component 101 *)
+   leaders, requests, answers, newest request as in component 101, then nacks (index payload)*: the Apply calls acknowledged by this step *)
 Definition enc_cnode (g : cgstate) (n : gnode) : list N :=
   let s := image (gn_run n) in
   let l := sorted_log (log_of n) in
@@ -304,7 +347,12 @@ Fixpoint run_clabels (cfg : config) (fuel : nat) (g : cgstate) (l : list N) : li
     | None => []
     | Some (lb, rest) =>
       match cstep true [cfg] g lb with
-      | Some g' => (if silent then [2] else 1 :: enc_cgstate g') ++ run_clabels cfg f g' rest
+      | Some g' =>
+        (* after the state: the client commands acknowledged by this step, (index, payload) *)
+        let acks := filter (fun te => e_ty (snd te) =? LogCommand) (step_acks g lb) in
+        (if silent then [2]
+         else 1 :: enc_cgstate g' ++ N.of_nat (length acks) :: flat_map (fun te => [e_idx (snd te); e_data (snd te)]) acks)
+        ++ run_clabels cfg f g' rest
       | None => 0 :: run_clabels cfg f g rest
       end
     end
